@@ -1,11 +1,12 @@
 #!/usr/bin/env python3
 """Regenerate MANIFEST.json from obligations/*.py (claimed properties) and NOT_APPLICABLE below."""
-import json, os, importlib.util, glob
+import json, os, sys, importlib.util, glob
 V = os.path.dirname(os.path.dirname(os.path.abspath(__file__)))
 NOT_APPLICABLE = {
     'C16': 'every clause quantifies over lane-thread interleavings, child-process behaviour, pipe buffering and signals (thread pool over a condition variable, posix_spawn/poll/wait4): no bounded sequential computation decides it; concurrency and code behind FFI/I-O are outside what CBMC over translated IR can encode here (DESIGN.md section 3, C16)',
 }
 PENDING = 'harnesses for this property are not built yet (work in progress); not claimed until its check exists'
+sys.path.insert(0, os.path.join(V, 'obligations'))
 ids = [json.loads(l)['id'] for l in open(os.path.join(V, 'properties.jsonl'))]
 checks = []; na = []
 for pid in ids:
